@@ -47,14 +47,14 @@ Lemma close_mult_gen P ms ds after K st ba rc anchor n0 a0 o0 es :
   s_branch_anchor st = ba ++ [anchor] -> s_recipes st = rc ++ [(anchor, (n0, a0, o0) :: es)] ->
   length rc = length ba -> rec_get anchor rc = None ->
   let entry := (n0, a0, match ms with Some s => Some (sym_ord s) | None => o0 end) :: es in
-  close_branch (P ++ ")"%char :: osym_str ms ++ "|"%char :: digits_str ds ++ after_tail after K) st
+  close_branch (P ++ ")"%char :: osym_str ms ++ "|"%char :: digits_str ds ++ after_tail after K) 0 st
   = ('(g, cur, _, base) <- exp_times (digits_nat ds - 1) [(anchor, entry)] (s_g st) (s_current st) anchor (Some anchor) ;;
      prev <- of_option base EUnbound ;;
-     Ok (mult_closed_gen st ba (rc ++ [(anchor, entry)]) g cur prev base after)).
+     Ok (mult_closed_gen st ba (rc ++ [(anchor, entry)]) g cur prev base after, Datatypes.S (length P))).
 Proof.
   intros HP Hd HK Hba Hrc Hlen Habs entry. destruct (digits_ok_all ds Hd) as [Hall Hne].
   destruct (after_tail_head after K HK) as (h & tl & ET & Hh).
-  unfold close_branch. rewrite Hba, rev_app_distr. cbn [rev app]. rewrite rev_involutive.
+  unfold close_branch. rewrite Hba, rev_app_distr. cbn [rev app]. rewrite rev_involutive. change (fnc_from ?r ?c 0) with (fnc0 r c).
   rewrite fnc0_spec, (find_idx_inner _ fnc_eon_a HP incl_eon_a). cbn [find_idx].
   change (str_in [")"%char] fnc_eon_a) with true. cbv iota. rewrite Nat.add_0_r. cbn [bind].
   rewrite !nth_error_plus.
@@ -71,8 +71,9 @@ Proof.
     - destruct (cont_head_b K HK) as (h' & tl' & -> & _ & Hm). cbn [nth_error]. now rewrite Hm. }
   assert (HN : Z.to_nat (Z.of_nat (digits_nat ds) - 1) = (digits_nat ds - 1)%nat) by lia.
   unfold entry. destruct ms as [s|]; cbn [osym_str app nth_error].
-  - assert (E1 : ch_eq (Some (sym_char s)) "|"%char = false) by (destruct s; reflexivity). rewrite E1.
-    cbn [ch_eq orb of_option bind]. change (Ascii.eqb "|"%char "|"%char) with true. cbv iota. cbn [of_option bind].
+  - assert (E1 : Ascii.eqb (sym_char s) "|"%char = false) by (destruct s; reflexivity).
+    cbn [ch_eq]. rewrite E1. change (Ascii.eqb "|"%char "|"%char) with true. rewrite sym_mem.
+    cbn [orb andb of_option bind]. rewrite E1. cbn [negb].
     rewrite sym_lookup. cbn [bind]. rewrite Hrc, (rec_get_app _ _ _ Habs), (rec_set_app _ _ _ _ Habs).
     cbn [bind].
     rewrite fnc_from_spec by (rewrite app_length; cbn [length]; lia).
@@ -86,25 +87,39 @@ Proof.
     destruct base as [b|]; cbn [of_option bind]; [|reflexivity].
     replace (length P + 2 + Datatypes.S (length ds))%nat with (length P + (3 + length (digits_str ds)))%nat by (unfold digits_str; rewrite map_length; lia).
     rewrite nth_error_plus. cbn [plus nth_error]. rewrite nth_error_app2 by lia. rewrite Nat.sub_diag.
-    fold D. fold T. rewrite Hcb. reflexivity.
-  - cbn [ch_eq]. change (Ascii.eqb "|"%char "|"%char) with true. cbn [orb].
-    destruct ds as [|d0 dr]; [contradiction|]. pose proof Hall as Hall'. cbn [forallb] in Hall'. apply andb_prop in Hall' as [Hd0 _].
-    apply Nat.ltb_lt in Hd0. unfold D at 1. cbn [digits_str map app nth_error of_option bind].
-    rewrite (proj2 (Ascii.eqb_neq _ _) (nobar_digit d0 Hd0)). cbn [bind].
-    fold (digits_str dr). change (digit_char d0 :: digits_str dr) with (digits_str (d0 :: dr)). fold D.
+    fold D. fold T. rewrite Hcb. cbn [bind]. rewrite Nat.add_1_r. reflexivity.
+  - cbn [ch_eq]. change (Ascii.eqb "|"%char "|"%char) with true. cbn [orb of_option bind].
+    change (Ascii.eqb "|"%char "|"%char) with true. cbn [negb bind].
     rewrite fnc_from_spec by (rewrite app_length; cbn [length]; lia).
     rewrite skipn_plus. cbn [skipn]. rewrite Hfi. cbn [bind].
     unfold py_slice. rewrite skipn_plus. cbn [skipn].
-    replace (length P + 1 + Datatypes.S (length (d0 :: dr)) - (length P + 2))%nat with (length D) by lia.
+    replace (length P + 1 + Datatypes.S (length ds) - (length P + 2))%nat with (length D) by lia.
     rewrite firstn_app, Nat.sub_diag, firstn_all. cbn [firstn]. rewrite app_nil_r.
     unfold D. rewrite py_int_full_digits by assumption. cbn [bind]. rewrite HN. rewrite Hrc, (skipn_len_app rc _ _ Hlen).
     destruct (exp_times _ _ _ _ _ _) as [[[[g cur] pn] base]|]; cbn [bind]; [|reflexivity].
     destruct base as [b|]; cbn [of_option bind]; [|reflexivity].
     match goal with |- context [nth_error (P ++ ?R) ?n] =>
-      replace n with (length P + (2 + length (digits_str (d0 :: dr))))%nat
-        by (unfold digits_str; cbn [length map]; rewrite map_length; lia) end.
+      replace n with (length P + (2 + length (digits_str ds)))%nat
+        by (unfold digits_str; rewrite map_length; lia) end.
     rewrite nth_error_plus. cbn [plus nth_error]. rewrite nth_error_app2 by lia. rewrite Nat.sub_diag.
-    fold D. fold T. rewrite Hcb. reflexivity.
+    fold D. fold T. rewrite Hcb. cbn [bind]. rewrite Nat.add_1_r. reflexivity.
+Qed.
+
+Lemma close_all_mult_gen P ms ds after K st ba rc anchor n0 a0 o0 es :
+  Forall inner P -> digits_ok ds = true -> cont K ->
+  s_branch_anchor st = ba ++ [anchor] -> s_recipes st = rc ++ [(anchor, (n0, a0, o0) :: es)] ->
+  length rc = length ba -> rec_get anchor rc = None ->
+  let entry := (n0, a0, match ms with Some s => Some (sym_ord s) | None => o0 end) :: es in
+  close_all (P ++ ")"%char :: osym_str ms ++ "|"%char :: digits_str ds ++ after_tail after K) st
+  = ('(g, cur, _, base) <- exp_times (digits_nat ds - 1) [(anchor, entry)] (s_g st) (s_current st) anchor (Some anchor) ;;
+     prev <- of_option base EUnbound ;;
+     Ok (mult_closed_gen st ba (rc ++ [(anchor, entry)]) g cur prev base after)).
+Proof.
+  intros HP Hd HK Hba Hrc Hlen Habs entry. rewrite close_all_first by assumption.
+  rewrite (close_mult_gen P ms ds after K st ba rc anchor n0 a0 o0 es HP Hd HK Hba Hrc Hlen Habs). cbv zeta. fold entry.
+  destruct (exp_times _ _ _ _ _ _) as [[[[g cur] pn] base]|]; cbn [bind]; [|reflexivity].
+  destruct base as [b|]; cbn [of_option bind]; [|reflexivity].
+  apply close_loop_stop_after. now apply mult_tail_no_close.
 Qed.
 
 (** ** the last node of a multiplied branch, at any depth *)
@@ -140,11 +155,8 @@ Proof.
   rewrite (add_nodes_copies (mult_val m) a 1 (s_g st) (s_current st) (Some p) (Some pend) pend
              (name_ok_ahas fo nm a Hn Ea)) by (intros _ ? _; reflexivity).
   destruct (m_copies (mult_val m) a (s_g st) (s_current st) (Some p) pend) as [[g2 nx] pv] eqn:Ecp. cbn [bind].
-  destruct (look_simple m None ")"%char (osym_str ms ++ "|"%char :: digits_str ds ++ after_tail after K) Hs)
-    as (io & ic & Eio & Eic & Hlt & _).
-  rewrite Eio. cbn [bind]. rewrite Eic. cbn [bind]. rewrite (Hlt eq_refl).
-  match goal with |- context [close_branch _ ?S] =>
-    rewrite (close_mult_gen (stail m None) ms ds after K S ba rc (Some ak) n0 a0 o0 (es ++ [(Z.of_nat (mult_val m), a, Some pend)])
+  match goal with |- context [close_all _ ?S] =>
+    rewrite (close_all_mult_gen (stail m None) ms ds after K S ba rc (Some ak) n0 a0 o0 (es ++ [(Z.of_nat (mult_val m), a, Some pend)])
                (stail_inner m None Hs) Hd HK eq_refl eq_refl Hlen Habs) end.
   cbn [s_g s_current s_base_anchor]. cbv zeta.
   rewrite exp_times_single.
